@@ -35,14 +35,17 @@ TRUSTED = [
     'extraction: Require Extraction ExtrOcamlBasic only; OCaml 4.13.1; ocaml/codec_driver.ml (the C01/C02 specification oracle)',
     'pydsdl 1.25 front end: the type JSON (tools/harness/codec/astdump.py) is what nunavut itself is handed',
     'tools/translators/gen_c04.py: regular-expression scanner of the Jinja templates (fail closed on any unrecognised shape)',
-    'Codec/WalkerSafe.v is a hand model of the templates: tied by the scanner facts, by WalkerSafeThm.wd_obs_eq_walker to Codec/Walker.v '
-    '(itself compared with the generated code on every C01/C02 run) and by the sanitizer campaign',
+    'Codec/WalkerSafe.v / WalkerSafeCpp.v are hand models of the templates: tied by the scanned facts and statement sequences, by '
+    'WalkerSafeThm.des_obs_eq_walker to Codec/Walker.v (itself compared with the generated code on every C01/C02 run) and by the sanitizer campaign',
+    'C++14 union constructor: the one destructor call on never-constructed storage sees the all-zero bytes of value-initialisation; that this is '
+    'a no-op for std::vector / generated composites is a property of the standard library in use (libstdc++), observed by the ctor probe under ASan/UBSan',
     'Prims/CPrimsThm.v (C14): nunavutCopyBits / GetBits / SetUxx perform no out-of-range access inside the footprint the log entries state',
     'clang 14 AddressSanitizer / UndefinedBehaviorSanitizer / LeakSanitizer runtimes; harness drivers tools/harness/codec/target_c.py, target_cpp.py, tools/harness/c04_probe.py',
 ]
 
 OVR = 'F-C-OVR-CAP'
 PTR = 'F-C-PTR-PAST-END'
+CPTR = 'F-CPP-PTR-PAST-END'
 
 # fixed types that make the C++ containers / the union emulation do real work (heap-owning alternatives, nested vectors)
 C04_FILES = {
@@ -62,7 +65,7 @@ SIZES = {'quick': dict(n_types=8, per_type=10, n_values=6, ser_per_type=8, max_t
 def matrix(tier: str) -> typing.List[typing.Tuple[str, dict]]:
     m = [('target_c', {'target_endianness': 'little', 'sanitize': True}),
          ('target_c', {'target_endianness': 'any', 'sanitize': True}),
-         ('target_cpp', {'std': 'c++14', 'sanitize': True, 'leak_check_each': True, 'cxx': 'clang++'}),
+         ('target_cpp', {'std': 'c++14', 'sanitize': True, 'leak_check_each': True, 'cxx': 'clang++', 'opt': '-O0'}),   # -O0: UBSan alignment checks on typed loads survive
          ('target_cpp', {'std': 'c++17', 'sanitize': True, 'leak_check_each': True, 'cxx': 'clang++'}),
          ('target_cpp', {'std': 'c++17-pmr', 'sanitize': True, 'leak_check_each': True, 'cxx': 'clang++'})]
     if tier != 'quick':
@@ -229,6 +232,38 @@ def run_probes(chk: core.Check, work: str, failures: typing.List[dict], stats: d
             failures.append({'kind': 'probe', 'what': 'generated C deserializer forms a pointer beyond one past the end of the buffer '
                              '(ISO C 6.5.6p8 undefined behaviour; model: c04_des_ptr_in_bounds_refuted)', 'reproduced': past,
                              'files': c04_probe.FILES, 'found_input': True})
+    # --- C++: any_bitspan::subspan() pointer; VariantType() on storage that held garbage (alternative 0 with a destructor)
+    exe, logc = c04_probe.build_cpp(core.REPO, os.path.join(work, 'probe_cpp'))
+    if not exe:
+        failures.append({'kind': 'probe-build-failure', 'log': logc[-3000:]})
+    else:
+        r = c04_probe.call(exe, ['ctor'])
+        obs['cpp ctor'] = {'out': r['out'], 'report': r['report'], 'rc': r['rc']}
+        stats['probe_runs'] = stats.get('probe_runs', 0) + 1
+        if r['report'] or r['rc'] != 0 or r['kv'].get('U0_index') != '0' or r['kv'].get('U2_index') != '0':
+            failures.append({'kind': 'probe', 'what': 'C++14 VariantType(): constructing / copying / assigning a union whose alternative 0 has a '
+                             'destructor, on storage that held garbage, is not clean (model: c04_variant_ctor says the only destructor call on '
+                             'dead storage sees all-zero bytes)', 'got': r, 'files': c04_probe.CPP_FILES, 'found_input': True})
+        pastc = []
+        for n, skip in ((2, 64), (0, 64), (9, 64), (12, 64)):
+            r = c04_probe.call(exe, ['ptr', str(n), str(skip)])
+            obs['cpp ptr %d %d' % (n, skip)] = {'out': r['out'], 'report': r['report'], 'rc': r['rc']}
+            stats['probe_runs'] = stats.get('probe_runs', 0) + 1
+            if r['report'] or r['rc'] != 0 or r['kv'].get('des_ok') != '1':
+                failures.append({'kind': 'probe', 'what': 'C++ pointer probe crashed / sanitizer report', 'args': [n, skip], 'got': r, 'files': c04_probe.CPP_FILES})
+                continue
+            off = int(r['kv']['ptr_off'])
+            if off > n:
+                pastc.append('const_bitspan of %d bytes, offset %d bits: subspan() points at data + %d' % (n, skip, off))
+                if n * 8 >= skip:
+                    failures.append({'kind': 'probe', 'what': 'C++ subspan pointer past the end although the buffer covers the offset', 'got': r})
+        if pastc:
+            if chk.is_known(CPTR):
+                chk.report_known(CPTR, pastc[0])
+                stats['known_finding_instances'] = stats.get('known_finding_instances', 0) + len(pastc)
+            else:
+                failures.append({'kind': 'probe', 'what': 'any_bitspan::subspan() forms a pointer beyond one past the end of the buffer '
+                                 '(model: c04_cpp_des_ptr_in_bounds_refuted)', 'reproduced': pastc, 'files': c04_probe.CPP_FILES, 'found_input': True})
     stats['probe_observations'] = obs
 
 
